@@ -214,6 +214,8 @@ def run(ctx):
     ctx.ob("R09.3", "echild.present", seen_undetermined, wp.loc(0), "an ECHILD path storing Finished(Undetermined) must exist")
     ctx.ob("R09.3", "status.present", seen_status, wp.loc(0), "a path storing the decoded status must exist")
 
+    reported_status_is_recorded(ctx, prog, "R09.3")
+
     # ---- R09.4 decode pairing ------------------------------------------
     dec = prog.one("posix::decode_exit_status")
     T = M.Terms(dec)
